@@ -144,7 +144,7 @@ def fp_drpchttp_protocol_grpc_web_grpcWebProtocol_framedWrite : List String :=
   ["5", "0", "call:binary.BigEndian.PutUint32", "slice", "1", "5", "call:uint32", "call:len", 
     "return", "call:gwp.write", "call:append", "slice"]
 def fp_drpchttp_protocol_grpc_web_grpcWebStream_MsgSend : List String :=
-  ["call:gws.gwp.marshal", "if", "!=", "return", "if", ">", "call:len", "return", "call:errs.New", 
+  ["call:gws.gwp.marshal", "if", "!=", "return", "if", ">=", "call:len", "return", "call:errs.New", 
     "s:message too large", "if", "call:gws.gwp.framedWrite", "0", "!=", "return", "if", "call:fl.Flush", 
     "return"]
 def fp_drpchttp_protocol_grpc_web_grpcWebStream_Finish : List String :=
@@ -498,8 +498,7 @@ def fp_drpcmigrate_prefixconn_prefixConn_Read : List String :=
   ["return", "call:pc.Reader.Read"]
 def fp_drpcmigrate_header_HeaderConn_Write : List String :=
   ["call:d.once.Do", "call:d.Conn.Write", "call:append", "call:[]byte", "if", "-=", "call:len", 
-    "if", "<", "0", "0", "return", "call:d.Conn.Write", "call:append", "call:[]byte", "-=", "call:len", 
-    "if", "<", "0", "0", "return"]
+    "if", "<", "0", "0", "return", "return", "call:d.Conn.Write"]
 def fp_drpcctx_tracker_Tracker_Run : List String :=
   ["call:t.wg.Add", "1", "go", "call:t.track"]
 def fp_drpcctx_tracker_Tracker_track : List String :=
